@@ -84,7 +84,7 @@ class SampleCounting(Family):
             'combinations per configuration; non-trivial = both verdicts occur or exact-equality boundary pinned')
 
     def cases(self, tier):
-        tols = [0, 0.1, '0%', '10%'] + ([1, '1%', '100%'] if tier == 'thorough' else [])
+        tols = [0, 0.1, '0%', '10%', '0.005%'] + ([1, '1%', '100%', '0.0125%'] if tier == 'thorough' else [])
         ns = [1, 2, 3] if tier == 'thorough' else [1, 2]
         for kind in ('real', 'complex'):
             for tol in tols:
@@ -222,7 +222,7 @@ class Numerical(Family):
             'comparison) x tolerances x credit {1, 0.5}')
 
     def cases(self, tier):
-        tols = [0, 0.1, '0%', '10%', 1, '1%', '100%', '5%']
+        tols = [0, 0.1, '0%', '10%', 1, '1%', '100%', '5%', '0.005%', '0.0125%', '0.002%', 1e-7, ' 2.5 % ']
         for a in range(len(NUM_ANSWERS)):
             for tol in tols:
                 for c in (1, 0.5):
